@@ -32,6 +32,7 @@ class Monitor:
         self.label_map = None       # labels (sorted unique) the current mode stats were fitted from
         self.fit_seen = 0
         self.min_distinct = None
+        self.total_distinct = None
         self.dim = None
         self.boxes = {}
         self.train_label = {}
@@ -52,6 +53,7 @@ class Monitor:
                 pts = uu[lab == v]
                 mon.boxes[v] = (pts.min(0), pts.max(0), len(np.unique(pts, axis=0)))
             mon.min_distinct = min(b[2] for b in mon.boxes.values())
+            mon.total_distinct = len(np.unique(uu, axis=0))
             mon.train_label = {uu[i].tobytes(): int(lab[i]) for i in range(len(lab))}
         hk.wrap(ModeStatistics, "from_particles", before=fp_before)
 
@@ -250,6 +252,12 @@ def pool_case(seed, cfg):
                 ms = tr.run(w.copy())
                 rs.run(w.copy())
             except Exception as e:
+                if isinstance(e, np.linalg.LinAlgError) and mon.total_distinct is not None and mon.total_distinct <= mon.dim:
+                    # the whole trimmed training set holds <= d distinct points: no estimator can produce a positive-definite
+                    # scale matrix and mutation never runs, so the property says nothing about this pool (generator artefact:
+                    # the reweighting step of a real run keeps the effective sample size far above d)
+                    out["degenerate_pool"] = out.get("degenerate_pool", 0) + 1
+                    break
                 fitted = clusterer.n_clusters_ > 0
                 tiny = mon.min_distinct is not None and mon.min_distinct <= mon.dim
                 key = "predict-on-unfitted-clusterer" if not fitted else "tiny-cluster-singular-scale" if (tiny and isinstance(e, np.linalg.LinAlgError)) \
@@ -392,6 +400,7 @@ def run():
         ck.case(dict(pool=kw["cfg"], kind=val["kind"]), nontrivial=max(val["K_seen"] or [0]) > 1)
         ck.event("synthetic pool sequences through Trainer.run + Resampler.run")
         ck.event("directed iterations (a chosen label loses all trimmed training points between refits)", val.get("directed", 0))
+        ck.event("pool sequences cut short because the whole trimmed training set held <= d distinct points (not judged)", val.get("degenerate_pool", 0))
         ck.event("kernel entries (parallel_mcmc) checked", val["entries"])
         ck.event("walkers whose actually-used mode was identified by a noise-free probe sweep", val.get("probed", 0))
         ck.event("potential assignments (selectable pool particles) checked", val.get("potential", 0))
